@@ -69,7 +69,7 @@ def run(ctx):
     C05.fixed_rule(ctx, prefix='C06-FIXED'); C05.embedded_rule(ctx, prefix='C06-FIXED')
 
 
-def style_scenarios(cg, f):
+def style_scenarios(cg, f, resolve=False):
     """evaluate the function once per paramstyle (and once for an unknown style): every comparison of a name/attribute with style constants
     (`x == 'qmark'`, `x in ('qmark', 'format')`) is decided by the scenario, everything else is unknown.  -> ({style: [statement texts reachable
     only because of that style]}, styles mentioned, unknown-style verdict).  Works for elif chains, sequences of early-return ifs, renamed
@@ -107,7 +107,7 @@ def style_scenarios(cg, f):
         r, _ = reach_for(st)
         # single-assignment locals read like what they stand for (`param_id = param.id ... ':%d' % param_id`)
         from ..q import resolve_names
-        per[st] = [norm(resolve_names(f.node, g.nodes[i].ast), limit=400) for i in sorted(r - unknown) if g.nodes[i].ast is not None and g.nodes[i].kind in ('stmt', 'test')]
+        per[st] = [norm(resolve_names(f.node, g.nodes[i].ast) if resolve else g.nodes[i].ast, limit=400) for i in sorted(r - unknown) if g.nodes[i].ast is not None and g.nodes[i].kind in ('stmt', 'test')]
     throws = [x for x in g.nodes if x.kind == 'stmt' and x.ast is not None and any(dotted(c.func) == 'throw' and c.args and dotted(c.args[0]) == 'NotImplementedError' for c in x.calls())]
     ok_unknown = bool(style_tests) and bool(throws) and any(t.id in unknown for t in throws) and \
         all(g.must_pass_after(t, throws, exits=[g.exit], edge_ok=eo_unknown) for t in sorted([t for t in style_tests if t.id in unknown], key=lambda t: t.lineno)[-1:])
@@ -120,7 +120,7 @@ def styles_rule(ctx):
     sites = [repo.fn(SB, 'Param.__str__'), repo.fn(SB, 'SQLBuilder.__init__'), repo.fn('pony.orm.core', 'adapt_sql')]
     tables = {}
     for f in sites:
-        per, mentioned, handled, ok_unknown = style_scenarios(cg, f)
+        per, mentioned, handled, ok_unknown = style_scenarios(cg, f, resolve=(f.qual == 'Param.__str__'))
         tables[f.qual] = per
         ok = handled == STYLES and (mentioned & STYLES) == STYLES and not (mentioned - STYLES)
         ctx.ob('C06-STYLES.handles-exactly-the-five-styles', f, f.node, ok, '' if ok else '%s handles %s (mentions %s)' % (f.qual, sorted(handled), sorted(mentioned)))
